@@ -61,7 +61,8 @@ Qed.
 Lemma geo_S_r q m : geo q (S m) = geo q m + q ^ m.
 Proof.
   induction m as [|m IH]; [unfold geo; cbn; ring|].
-  rewrite geo_S, IH, geo_S. cbn [pow]. ring.
+  rewrite (geo_S q (S m)). rewrite (geo_S q m) in *. cbn [pow].
+  apply (f_equal (Rmult q)) in IH. lra.
 Qed.
 Lemma geo_nonneg q m : 0 <= q -> 0 <= geo q m.
 Proof. intros Hq. induction m as [|m IH]; [unfold geo; cbn; lra|]. rewrite geo_S. pose proof (Rmult_le_pos _ _ Hq IH). lra. Qed.
@@ -102,7 +103,7 @@ Section Rounded.
         - rewrite (Rabs_left r) in * by lra. rewrite (Rabs_left (r - - eta)) by lra. rewrite Rabs_Ropp, (Rabs_pos_eq eta) by lra. lra. }
       destruct Hre as [H1 H2].
       exists ((r - e) / x), e. repeat split; [|exact H2|unfold r; field; exact Hx].
-      unfold Rdiv. rewrite Rabs_mult, Rabs_Rinv by exact Hx.
+      unfold Rdiv. rewrite Rabs_mult, Rabs_inv.
       apply (Rmult_le_reg_r (Rabs x)); [exact Hax|]. rewrite Rmult_assoc, Rinv_l by lra. lra.
   Qed.
 
@@ -184,4 +185,23 @@ Lemma std_model_id : std_model (fun x => x) 0 0.
 Proof.
   constructor; [|reflexivity|lra|lra].
   intros x. rewrite Rminus_diag_eq, Rabs_R0 by reflexivity. lra.
+Qed.
+
+(* a rounding that is NOT exact: rnd v = v * (1 + 1/8) satisfies the model with eps = 1/8, eta = 0 *)
+Lemma std_model_scale : std_model (fun v => v * (1 + / 8)) (/ 8) 0.
+Proof.
+  constructor; [|ring|lra|lra].
+  intros v. replace (v * (1 + / 8) - v) with (v * / 8) by ring. rewrite Rabs_mult, (Rabs_pos_eq (/ 8)) by lra. lra.
+Qed.
+
+(* from the (1+eps)^k - 1 form to the gamma_k form of a bound *)
+Lemma bound_gamma (rnd : R -> R) (eps eta : R) (M : std_model rnd eps eta) (k : nat) (E S T : R) :
+  INR k * eps < 1 -> 0 <= S -> 0 <= T ->
+  E <= ((1 + eps) ^ k - 1) * S + T * (1 + eps) ^ k ->
+  E <= gamma eps k * S + T * (1 + gamma eps k).
+Proof.
+  intros Hk HS HT HE. pose proof (p1_le_gamma _ _ _ M k Hk) as G.
+  assert (((1 + eps) ^ k - 1) * S <= gamma eps k * S) by (apply Rmult_le_compat_r; lra).
+  assert (T * (1 + eps) ^ k <= T * (1 + gamma eps k)) by (apply Rmult_le_compat_l; lra).
+  lra.
 Qed.
